@@ -60,17 +60,23 @@ def fixpoint_loops(b):
             # the flag decides whether the loop is left: a switch on the flag inside the loop with one successor that
             # cannot come back to the header
             decides = False
+            tests = []
             for bb in blocks:
                 t = b.term(bb)
                 if t['k'] == 'switch':
                     pl = op_place(t['on'])
                     if pl is not None and b.root(pl['l'], through=(), stop_named=False)[0] == l:
+                        tests.append(bb)
                         for s in b.succs(bb):
                             if h not in b.reachable([s]):
                                 decides = True
                             elif s not in blocks:
                                 decides = True
             if not decides:
+                continue
+            # a change flag is lowered at the start of a round: its reset comes before every test of it in the round.  A bool that is
+            # merely COMPUTED in the round (`let f = a && b`, whose short-circuit arm also assigns the constant false) has no such reset
+            if not all(any(b.dominates(r, tb) for r in resets) for tb in tests):
                 continue
             # only the outermost loop in which the flag is reset counts (inner loops of the round share the flag)
             inner_of = [h2 for h2, b2 in loops.items() if h2 != h and h in b2 and any(r in b2 for r in resets)]
